@@ -730,7 +730,13 @@ def build_pipeline_inspection(
                     context_params[key] = key_origin.get(key)
                 required_params.add(key)
 
-        all_required_params.update(required_params)
+        # A key counts as externally required only if no earlier node provides it
+        # (use-before-create and create-and-require-in-one-node stay required).
+        all_required_params.update(
+            name
+            for name in required_params
+            if name not in key_origin or name in deleted_keys
+        )
 
         required_external_parameters: List[str] = []
         required_hook = getattr(
@@ -830,7 +836,7 @@ def build_pipeline_inspection(
 
     # Calculate pipeline-level required context keys
     # These are parameters required by nodes but not created by any node
-    required_context_keys = all_required_params - all_created_keys
+    required_context_keys = set(all_required_params)
 
     return PipelineInspection(
         nodes=inspection_nodes,
